@@ -232,12 +232,25 @@ class Ctx:
         self.notes.append("TLAPS proof of %s unavailable in this run" % module)
         return 0
 
-    def model_check(self, module, cfg=None, workers=None, timeout=1800, expect_violation=None):
+    def _override(self, d, module, cfg, overrides):
+        cfgp = os.path.join(d, cfg or module + ".cfg")
+        txt = open(cfgp).read()
+        for k, v in overrides.items():
+            txt, cnt = re.subn(r"(?m)^(\s*(?:CONSTANT\s+)?%s\s*=\s*).*$" % re.escape(k), lambda m: m.group(1) + str(v), txt)
+            if cnt == 0:
+                raise Infra("configuration %s has no constant %s to override" % (cfg, k))
+        open(cfgp, "w").write(txt)
+
+    def model_check(self, module, cfg=None, workers=None, timeout=1800, expect_violation=None, overrides=None):
         """Exhaustive TLC run of a specification-level configuration. A property
         violation found on the specification alone is a specification bug, i.e. an
         infrastructure failure, never a verdict about pat-go."""
-        self.log("TLC model checking %s %s" % (module, cfg or ""))
-        r = self.tlc(module, cfg, workers, timeout, heap="8g")
+        self.log("TLC model checking %s %s%s" % (module, cfg or "", " %s" % overrides if overrides else ""))
+        cwd = None
+        if overrides:
+            cwd = self._specdir("mc-" + module + "-" + (cfg or "default") + "-" + re.sub(r"\W+", "_", str(sorted(overrides.items()))))
+            self._override(cwd, module, cfg, overrides)
+        r = self.tlc(module, cfg, workers, timeout, heap="8g", cwd=cwd)
         out = r["out"]
         m = re.search(r"(\d+) states generated, (\d+) distinct states found", out)
         if expect_violation:
@@ -261,11 +274,7 @@ class Ctx:
         JSON-decoded when they look like JSON)."""
         d = self._specdir("gen-" + module + "-" + (cfg or ""))
         if overrides:
-            cfgp = os.path.join(d, cfg or module + ".cfg")
-            txt = open(cfgp).read()
-            for k, v in overrides.items():
-                txt = re.sub(r"(?m)^(\s*(?:CONSTANT\s+)?%s\s*=\s*).*$" % re.escape(k), lambda m: m.group(1) + str(v), txt)
-            open(cfgp, "w").write(txt)
+            self._override(d, module, cfg, overrides)
         r = self.tlc(module, cfg, workers=workers, timeout=timeout, cwd=d, heap="4g")
         out = r["out"]
         m = re.search(r"(\d+) states generated, (\d+) distinct states found", out)
